@@ -151,22 +151,25 @@ Proof.
 Qed.
 Print Assumptions C18_label_chars_safe.
 
-(* (F) a name without a line feed: the header "\n// name\nlabel:" reads as exactly the label *)
-Theorem C18_subroutine_comment_safe_without_linebreak :
+(* (F) for EVERY name the subroutine header reads as exactly one statement, the label.  Since /repo 3627216
+   TealLabel.assemble emits one `// ` line per line of name.splitlines() (or one empty comment line); before that
+   commit the name was emitted raw and a line feed in it injected instructions (this theorem replaces the former
+   refutation C18_subroutine_comment_single_line_refuted).  Trusted assumption, as everywhere: the assembler splits
+   its input at U+000A only — the separators splitlines() knows beyond \n and \r\n are gone from every emitted
+   line anyway (C18_comment_lines_accepted's lemma splitlines_no_break). *)
+Theorem C18_subroutine_comment_single_line :
   forall msel name i,
-    no_nl (list_ascii_of_string name) ->
     assemble_comp (sub_header name i) = Some (header_text name (sub_label name i)) /\
     statements_of_text msel (header_text name (sub_label name i)) = Some [SLabel (sub_label name i)].
-Proof. intros msel name i H. split; [reflexivity|apply sub_header_safe_without_linebreak; exact H]. Qed.
-Print Assumptions C18_subroutine_comment_safe_without_linebreak.
+Proof. intros msel name i. split; [reflexivity|apply sub_header_single_statement]. Qed.
+Print Assumptions C18_subroutine_comment_single_line.
 
-(* (R) "the header of a subroutine contributes only its label" is false: a name with line feeds injects instructions *)
-Theorem C18_subroutine_comment_single_line_refuted :
-  exists name i h, assemble_comp (sub_header name i) = Some h /\
-    statements_of_text [] h =
-    Some [SInstr (mkP O_int [IInt 0]); SInstr (mkP O_return_ []); SLabel (sub_label name i)].
-Proof. exists evil_name, 0%N, (header_text evil_name (sub_label evil_name 0)). split; [reflexivity|exact sub_header_injects]. Qed.
-Print Assumptions C18_subroutine_comment_single_line_refuted.
+(* the former witness: the name foo / int 0 / return (three lines) now yields three comment lines *)
+Example C18_former_injection_witness :
+  header_text evil_name (sub_label evil_name 0) =
+    nl ++ "// foo" ++ nl ++ "// int 0" ++ nl ++ "// return" ++ nl ++ "fooint0return_0:" /\
+  statements_of_text [] (header_text evil_name (sub_label evil_name 0)) = Some [SLabel "fooint0return_0"].
+Proof. exact evil_name_header. Qed.
 
 (* ================= instruction stream ================= *)
 
